@@ -283,8 +283,10 @@ class PSBT:
                 for sec, sig in psbt_in.sigs.items():
                     point = S256Point.parse(sec)
                     signature = Signature.parse(sig[:-1])
-                    if psbt_in.prev_out:
-                        # segwit
+                    if psbt_in.prev_out or (
+                        psbt_in.prev_tx and psbt_in.use_segwit_signature()
+                    ):
+                        # segwit (verified with the sighash that sign() uses)
                         if not self.tx_obj.check_sig_segwit(
                             i,
                             point,
@@ -1157,7 +1159,13 @@ class PSBTIn:
                     raise ValueError(
                         "witness UTXO does not match the previous transaction's output"
                     )
-        if self.prev_out or (self.witness_script and script_pubkey):
+        if self.prev_out or (
+            script_pubkey
+            and (
+                self.witness_script
+                or (self.redeem_script and self.redeem_script.is_witness_script())
+            )
+        ):
             # witness input
             if not (
                 script_pubkey.is_p2sh()
